@@ -17,7 +17,7 @@ try:
         # a single broken proof must not block the other properties: report and continue
         print("setup: coq build incomplete:", b.what)
         print(b.detail[-2000:])
-    vlib.build_coq(["Extract/Dispatch.vo"])
+    vlib.build_coq(["Extract/DispatchS.vo"])
     vlib.build_model()
     vlib.build_harness()
     print("setup ok")
